@@ -15,6 +15,25 @@ import time
 VERIF = os.path.dirname(os.path.dirname(os.path.abspath(__file__)))
 TARGET = os.path.join(VERIF, "target")
 CRATES = {"on": os.path.join(VERIF, "kani"), "off": os.path.join(VERIF, "kani_off")}
+REPLAY_CRATE = os.path.join(VERIF, "replay")
+# The registered checks always verify /repo.  For development (running the checks against a
+# seeded change in a scratch worktree while /repo stays untouched) VERIF_REPO=<dir> makes the
+# driver work on copies of the harness crates whose path dependency points at <dir>, with
+# their own build directory.
+REPO = os.path.abspath(os.environ.get("VERIF_REPO", "/repo"))
+if REPO != "/repo":
+    TARGET = os.path.join(VERIF, "target", "alt_" + hashlib.sha1(REPO.encode()).hexdigest()[:10])
+    _cr = os.path.join(TARGET, "crates")
+    for _n in ("kani", "kani_off", "replay"):
+        _dst = os.path.join(_cr, _n)
+        if os.path.exists(_dst):
+            shutil.rmtree(_dst)
+        shutil.copytree(os.path.join(VERIF, _n), _dst, ignore=shutil.ignore_patterns("target"))
+        _ct = os.path.join(_dst, "Cargo.toml")
+        _txt = open(_ct).read().replace('path = "/repo"', 'path = "%s"' % REPO)
+        open(_ct, "w").write(_txt)
+    CRATES = {"on": os.path.join(_cr, "kani"), "off": os.path.join(_cr, "kani_off")}
+    REPLAY_CRATE = os.path.join(_cr, "replay")
 CRATE_NAME = {"on": "nfv", "off": "nfv_off"}
 
 ENV = dict(os.environ)
@@ -230,7 +249,7 @@ except Exception:
 class Harness:
     def __init__(self, name, unwind, feature="on", timeout=900, mem_gb=12, loops=None,
                  desc="", bounds=None, assumptions=None, expect="pass", finding=None,
-                 tier="quick", solver=None, extra_args=None, stub_exact=True, fs=256, bytewise=0, mem_est=None):
+                 tier="quick", solver=None, extra_args=None, stub_exact=True, fs=256, bytewise=0, mem_est=None, acct=False):
         self.name = name
         self.unwind = unwind
         self.feature = feature
@@ -248,6 +267,7 @@ class Harness:
         self.stub_exact = stub_exact
         self.fs = fs                  # CBMC --max-field-sensitivity-array-size
         self.bytewise = bytewise      # >0: link vlib/bytewise_mem.c, memcpy/memmove loop bound
+        self.acct = acct              # link vlib/kani_lib_acct.c (allocator accounting model) instead of kani_lib.c
         pk = _PEAKS.get(feature + ":" + name)
         if mem_est is not None:
             self.mem_est = mem_est
@@ -369,7 +389,7 @@ def run_harness(h, logdir, seed=0):
     _, mangled, symtab, stubs = md
     r["stubs"] = ["%s -> %s" % (s.get("original"), s.get("replacement")) if isinstance(s, dict) else str(s) for s in stubs]
     work = symtab.replace(".symtab.out", "") + ".cbmc.out"
-    libs = [KANI_LIB_C]
+    libs = [os.path.join(VERIF, "vlib", "kani_lib_acct.c") if h.acct else KANI_LIB_C]
     if h.bytewise:
         libs.append(os.path.join(VERIF, "vlib", "bytewise_mem.c"))
         h = _with_loops(h, [(r"^memcpy\.|^memmove\.", h.bytewise + 1)])
